@@ -154,6 +154,17 @@ func NewTracker(c *Check) *Tracker {
 			cc := x.Common()
 			sc := staticCallee(cc)
 			if sc == nil {
+				// the event writer reached through an interface
+				if isCalleeObj(cc, wobj) && len(cc.Args) >= 1 {
+					f := base
+					f.Kind = "emit"
+					if rc, ok := strip(cc.Args[len(cc.Args)-1]).(*ssa.Call); ok {
+						if rs := staticCallee(rc.Common()); rs != nil && t.Renderer[rs] && len(rc.Call.Args) == 2 {
+							f.U, f.E = v.R.Of(rc.Call.Args[0]), v.R.Of(rc.Call.Args[1])
+						}
+					}
+					t.Facts = append(t.Facts, f)
+				}
 				return
 			}
 			args := cc.Args
@@ -169,20 +180,20 @@ func NewTracker(c *Check) *Tracker {
 				case "WithLockedValueDo":
 					f.Key = v.R.Of(args[1])
 					if mc, ok := args[2].(*ssa.MakeClosure); ok {
-						f.Cb = mc.Fn.(*ssa.Function)
+						f.Cb = unwrapBound(mc.Fn.(*ssa.Function))
 					}
 				case "Iterate":
 					if mc, ok := args[1].(*ssa.MakeClosure); ok {
-						f.Cb = mc.Fn.(*ssa.Function)
+						f.Cb = unwrapBound(mc.Fn.(*ssa.Function))
 					}
 				}
 				t.Facts = append(t.Facts, f)
 				return
 			}
-			if isCalleeObj(cc, wobj) && len(args) == 2 {
+			if isCalleeObj(cc, wobj) && len(args) >= 1 {
 				f := base
 				f.Kind = "emit"
-				if rc, ok := strip(args[1]).(*ssa.Call); ok {
+				if rc, ok := strip(args[len(args)-1]).(*ssa.Call); ok {
 					if rs := staticCallee(rc.Common()); rs != nil && t.Renderer[rs] && len(rc.Call.Args) == 2 {
 						f.U, f.E = v.R.Of(rc.Call.Args[0]), v.R.Of(rc.Call.Args[1])
 					}
